@@ -61,6 +61,76 @@ def concrete_check(path, dd, out):
     return None
 
 
+EARTH_R = 6371000.0
+LATLON_GRID = [   # (trace in degrees, spacings in metres): street scale, long legs (equal chord steps are not equal arc steps), hemispheres
+    ([(50.8790, 4.7000), (50.8830, 4.7050), (50.8830, 4.7120)], [50.0, 100.0, 33.3, 1000.0]),
+    ([(50.8503, 4.3517), (39.9334, 32.8597)], [100517.5, 105000.0, 100000.0, 400000.0, 1256600.0]),
+    ([(-33.9, 151.2), (-37.8, 144.9), (-31.95, 115.86)], [50000.0, 123456.0, 800000.0]),
+    ([(-2.0, 30.0), (3.0, 31.0)], [10000.0, 190000.0, 290000.0]),
+    ([(60.0, 10.0), (60.0, 10.01), (60.0, 10.01), (60.002, 10.01)], [25.0, 120.0]),
+    ([(10.0, 20.0)], [5.0]),
+]
+
+
+def _vec(p):
+    la, lo = math.radians(p[0]), math.radians(p[1])
+    return (math.cos(la) * math.cos(lo), math.cos(la) * math.sin(lo), math.sin(la))
+
+
+def _ang(a, b):
+    cx, cy, cz = a[1] * b[2] - a[2] * b[1], a[2] * b[0] - a[0] * b[2], a[0] * b[1] - a[1] * b[0]
+    return math.atan2(math.sqrt(cx * cx + cy * cy + cz * cz), a[0] * b[0] + a[1] * b[1] + a[2] * b[2])
+
+
+def concrete_latlon_check(path, dd, out):
+    """Independent spherical oracle on doubles (unit vectors, no haversine / bearing / destination): originals kept in order, inserted
+    points on the minor great-circle arc between the surrounding originals, in order along it, no gap above the spacing."""
+    if tuple(out[0]) != tuple(path[0]) or tuple(out[-1]) != tuple(path[-1]):
+        return "first/last point not kept"
+    i = 0
+    for a, b in zip(path, path[1:]):
+        if tuple(out[i]) != tuple(a):
+            return f"original point {a} not found in order"
+        j, ins = i + 1, []
+        while j < len(out) and tuple(out[j]) != tuple(b):
+            ins.append(out[j])
+            j += 1
+        if j >= len(out):
+            return f"original point {b} not found in order"
+        va, vb = _vec(a), _vec(b)
+        ab = _ang(va, vb)
+        prev = 0.0
+        for p in ins:
+            vp = _vec(p)
+            ap, pb = _ang(va, vp), _ang(vp, vb)
+            if abs(ap + pb - ab) * EARTH_R > 1e-3 + 1e-9 * ab * EARTH_R:
+                return f"inserted point {p} is not on the great-circle connection {a}->{b} (detour {abs(ap + pb - ab) * EARTH_R} m)"
+            if ap < prev - 1e-12:
+                return f"inserted point {p} is out of order along {a}->{b}"
+            prev = ap
+        i = j
+    for p, q in zip(out, out[1:]):
+        g = _ang(_vec(p), _vec(q)) * EARTH_R
+        if g > dd * (1 + 1e-9) + 1e-6:
+            return f"gap {g} m between {p} and {q} larger than spacing {dd} m"
+    return None
+
+
+def latlon_grid_replay():
+    """Runs the real dist_latlon.interpolate_path (real trigonometry, plain floats) on the grid; returns None or a description + input."""
+    from leuvenmapmatching.util import dist_latlon as dl
+    for path, dds in LATLON_GRID:
+        for dd in dds:
+            try:
+                out = dl.interpolate_path(list(path), dd)
+            except Exception as e:
+                return dict(desc=f"dist_latlon.interpolate_path({path}, {dd}) raised {e!r}", path=[list(p) for p in path], dd=dd, kind='latlon_grid')
+            bad = concrete_latlon_check(path, dd, out)
+            if bad:
+                return dict(desc=f"dist_latlon.interpolate_path({path}, {dd}): {bad}", path=[list(p) for p in path], dd=dd, kind='latlon_grid')
+    return None
+
+
 class GeoPoint(tuple):
     """result of the stand-in destination_radians: remembers (start, bearing, distance term)."""
     def __new__(cls, lat, lon, start, brng, dist):
@@ -151,9 +221,26 @@ def run_latlon_struct(inst):
                     prev = sk
         return cl
 
+    grid = {}
+
     def confirm(eng, model, v, cname):
-        return dict(desc=f"dist_latlon.interpolate_path structure: {cname} fails (stand-in primitives) with dd={E.model_value(model, v['dd'].t)}, "
-                         f"distances={ {str(k): E.model_value(model, d.t) for k, d in v['memo'].items() if isinstance(d, E.Sym)} }", kind='latlon_struct')
+        # The structural claims are tied to one way of writing the loop (distance, bearing, destination): a failing claim is only a
+        # candidate.  It is reported when the unmodified function, with the real trigonometry, breaks the property on a grid of
+        # concrete traces judged by an independent spherical oracle (evaluated once per instance: it does not depend on the model).
+        if 'r' not in grid:
+            restore = {k: getattr(dl, k) for k in saved}
+            for k, f in saved.items():
+                setattr(dl, k, f)
+            try:
+                with shims.concrete():
+                    grid['r'] = latlon_grid_replay()
+            finally:
+                for k, f in restore.items():
+                    setattr(dl, k, f)
+        r = grid['r']
+        if r is None:
+            return None
+        return dict(r, desc=f"{r['desc']} (structure claim {cname} fails on the symbolic path)")
     try:
         out = runner.explore(f"latlon-structure n={npts} subdivisions<={maxsub}", runner.lra_engine(10000), scenario, claims, confirm=confirm,
                              witness=lambda eng, v: ['latlon_inserted'] if len(v['out']) > len(v['pts']) else ['latlon_nothing_inserted'])
@@ -255,7 +342,7 @@ def main(tier):
         for t, n in r.get('tags', {}).items():
             tags[t] = tags.get(t, 0) + n
         for v in r.get('violations', []):
-            fn = write_replay(PID, dict(property=PID, instance=r['name'], path=v.get('path'), dd=v.get('dd'), observed=v['desc']))
+            fn = write_replay(PID, dict(property=PID, instance=r['name'], path=v.get('path'), dd=v.get('dd'), kind=v.get('kind'), observed=v['desc']))
             rep.violations.append(dict(replay=fn, msg=v['desc']))
         for c in r.get('candidates', []):
             rep.unconfirmed.append(f"{r['name']}: {c}")
@@ -271,6 +358,17 @@ def replay_file(path):
     import_repo()
     from leuvenmapmatching.util import dist_euclidean as de
     d = json.load(open(path))
+    if d.get('kind') == 'latlon_grid':
+        from leuvenmapmatching.util import dist_latlon as dl
+        cp = [tuple(p) for p in d['path']]
+        try:
+            out = dl.interpolate_path(cp, d['dd'])
+        except Exception as e:
+            print(f"raised {e!r}")
+            return 1
+        bad = concrete_latlon_check(cp, d['dd'], out)
+        print(len(out), 'points ->', bad or 'consistent')
+        return 1 if bad else 0
     if not d.get('path'):
         print(d['observed'])
         return 1
